@@ -113,4 +113,18 @@ example :
       [("roID", none), ("roChannel", none), ("story", some "C"), ("roTrigger", none), ("roEdDur", none)] := by
   decide
 
+/-- corollary (C03/C04 along histories): a child of the roCreate - for instance a story that an earlier
+    message carried in - that no later message names is still there, with identical content, after the
+    whole history -/
+theorem C04_persists (strict : Bool) (ro : Xml) (rs : List Reader) (ws : List Warn)
+    (h : DomFrameRun ro rs) (c : Xml) (hc : c ∈ rcKids ro) (hn : ∀ r ∈ rs, namesChild r c = false) :
+    c ∈ rcKids (mergeLoop strict ro rs ws).ro := by
+  have hp : (fun c => rs.all (fun r => !namesChild r c)) c = true := by
+    simp only [List.all_eq_true, Bool.not_eq_true']
+    exact hn
+  have hmem : c ∈ (rcKids ro).filter (fun c => rs.all (fun r => !namesChild r c)) :=
+    List.mem_filter.mpr ⟨hc, hp⟩
+  rw [← C03_history strict ro rs ws h] at hmem
+  exact (List.mem_filter.mp hmem).1
+
 end Mrm
